@@ -216,3 +216,50 @@ def degree(e, base, memo=None):
                     return None
         degs.add(d)
     return degs.pop() if len(degs) == 1 else None
+
+
+def run_update_all(ctx, mineral_specs, assemblage, fractions, N=2):
+    """Interpret pydrex.minerals.update_all with real update_orientations bodies, a stub solver per call and the rate
+    kernel replaced by a recorder.  Returns (list of (phase name, volume_fraction recorded), result, exception)."""
+    rec = []
+    state = {"n": 0}
+
+    def derivatives_stub(I_, *a, **kw):
+        rec.append((kw.get("phase"), kw.get("volume_fraction"), kw))
+        n = int(kw.get("n_grains", N))
+        k = len(rec)
+        return (symarr(f"dA{k}", (n, 3, 3)), symarr(f"df{k}", (n,)))
+
+    def lsoda(I_, fun, t0, y0, t_bound, **kw):
+        s = Record(None, {}, label="LSODA")
+        state["n"] += 1
+        sid = state["n"]
+        s.attrs.update(fun=fun, t0=t0, y0=y0, t_bound=t_bound, kwargs=kw, status="running", y=np.array(list(y0.flat), dtype=object))
+        steps = {"k": 0}
+
+        def step(I2):
+            steps["k"] += 1
+            tk = alg.sym(f"t{sid}_{steps['k']}")
+            I2.call(fun, (tk, symarr(f"Yq{sid}_{steps['k']}", s.attrs["y"].shape)))
+            s.attrs["y"] = symarr(f"Y{sid}_{steps['k']}", s.attrs["y"].shape)
+            s.attrs["status"] = "finished"
+            return None
+        s.native_methods["step"] = Native("LSODA.step", step)
+        return s
+
+    def chooser(keys):
+        zeros = [i for i, k in enumerate(keys) if lift(k).is_zero()]
+        return tuple(zeros + [i for i in range(len(keys)) if i not in zeros])
+    I = Interp(ctx.program, externals={"scipy.integrate.LSODA": Native("LSODA", lsoda)},
+               stubs={"pydrex.core.derivatives": Native("derivatives", derivatives_stub)}, perm_chooser=chooser)
+    ms = [make_mineral(I, ph, fb, rg, N, label=f"u{i}") for i, (ph, fb, rg) in enumerate(mineral_specs)]
+    params = make_params(I, assemblage, fractions)
+    F0 = symarr("F0", (3, 3))
+    Lf = Native("get_velocity_gradient", lambda I_, t, x: mkarr([[alg.Fn("L", lift(t), tuple(lift(c) for c in x.flat), i, j) for j in range(3)] for i in range(3)]))
+    xf = Native("get_position", lambda I_, t: mkarr([alg.Fn("x", lift(t), k) for k in range(3)]))
+    f = public(ctx, I, "pydrex.minerals.update_all")
+    try:
+        out = I.call(f, (ms, params, F0, Lf, (alg.sym("ta"), alg.sym("tb"), xf)))
+        return rec, out, None
+    except RaiseSig as r:
+        return rec, None, r.exc
